@@ -383,14 +383,14 @@ func pubsubHandover(seed int64, rounds int, want map[string]bool, enc *json.Enco
 					}
 					io.Copy(io.Discard, cb)
 				}()
-				idA := tab.Subscribe("api-flap", sa)
+				idA := psSubscribe(tab, "api-flap", sa)
 				var wg sync.WaitGroup
 				var idB string
 				wg.Add(2)
-				go func() { defer wg.Done(); idB = tab.Subscribe("api-flap", sb) }()
-				go func() { defer wg.Done(); tab.UnSubscribe("api-flap", idA) }()
+				go func() { defer wg.Done(); idB = psSubscribe(tab, "api-flap", sb) }()
+				go func() { defer wg.Done(); psUnSubscribe(tab, "api-flap", idA) }()
 				wg.Wait()
-				n := tab.Send("api-flap", "x")
+				n := psSend(tab, "api-flap", "x")
 				if n == 1 {
 					for w := 0; w < 200 && !gotB.Load(); w++ {
 						time.Sleep(50 * time.Microsecond)
@@ -402,7 +402,7 @@ func pubsubHandover(seed int64, rounds int, want map[string]bool, enc *json.Enco
 						first = i
 					}
 				}
-				tab.UnSubscribe("api-flap", idB)
+				psUnSubscribe(tab, "api-flap", idB)
 				sa.Close()
 				sb.Close()
 				ca.Close()
@@ -470,7 +470,7 @@ func pubsubPrune(seed int64, rounds int, want map[string]bool, enc *json.Encoder
 					}
 					// a subscriber that is already gone
 					ca, sa := net.Pipe()
-					tab.Subscribe(ch, sa)
+					psSubscribe(tab, ch, sa)
 					ca.Close()
 					sa.Close()
 					cb, sb := net.Pipe()
@@ -486,7 +486,7 @@ func pubsubPrune(seed int64, rounds int, want map[string]bool, enc *json.Encoder
 					var idB, pubOut string
 					inner.Add(2)
 					go func() { defer inner.Done(); pubOut, _ = runCmd(mgr, "PUBLISH", ch, "x") }()
-					go func() { defer inner.Done(); idB = tab.Subscribe(ch, sb) }()
+					go func() { defer inner.Done(); idB = psSubscribe(tab, ch, sb) }()
 					inner.Wait()
 					_ = pubOut
 					out, _ := runCmd(mgr, "PUBLISH", ch, "y")
@@ -499,7 +499,7 @@ func pubsubPrune(seed int64, rounds int, want map[string]bool, enc *json.Encoder
 						bad.CompareAndSwap(nil, fmt.Sprintf("round %d on %s: a Subscribe that had returned was answered %q by the next PUBLISH and the subscriber %s it "+
 							"(the channel's previous subscriber was dead and a PUBLISH pruned it while this one joined)", i, ch, out, map[bool]string{true: "received", false: "never received"}[gotB.Load()]))
 					}
-					tab.UnSubscribe(ch, idB)
+					psUnSubscribe(tab, ch, idB)
 					sb.Close()
 					cb.Close()
 					ops.Add(3)
@@ -549,9 +549,9 @@ func pubsubPaths(seed int64, want map[string]bool, enc *json.Encoder) {
 	go func() { io.Copy(io.Discard, ca) }()
 	go func() { io.Copy(io.Discard, cb) }()
 	var got []string
-	idA := tab.Subscribe("paths", sa)
-	idA2 := tab.Subscribe("paths", sa)
-	idB := tab.Subscribe("paths", sb)
+	idA := psSubscribe(tab, "paths", sa)
+	idA2 := psSubscribe(tab, "paths", sa)
+	idB := psSubscribe(tab, "paths", sb)
 	o, _ := runCmd(mgr, "PUBLISH", "paths", "x")
 	got = append(got, o)
 	o, _ = runCmd(mgr, "PUBLISH", "paths-absent", "x")
@@ -560,13 +560,13 @@ func pubsubPaths(seed int64, want map[string]bool, enc *json.Encoder) {
 	sb.Close()
 	o, _ = runCmd(mgr, "PUBLISH", "paths", "y")
 	got = append(got, o)
-	tab.UnSubscribe("paths", idB)
-	tab.UnSubscribe("paths-absent", "no-such-id")
+	psUnSubscribe(tab, "paths", idB)
+	psUnSubscribe(tab, "paths-absent", "no-such-id")
 	ca.Close()
 	sa.Close()
 	o, _ = runCmd(mgr, "PUBLISH", "paths", "z")
 	got = append(got, o)
-	tab.UnSubscribe("paths", idA)
+	psUnSubscribe(tab, "paths", idA)
 	o, _ = runCmd(mgr, "PUBLISH", "paths", "w")
 	got = append(got, o)
 	rep.Ops = 13
